@@ -171,7 +171,7 @@ mutant("c07-lower-ge", ["C07"], [("src/lib.rs", "(n, _) if n > N::USIZE => retur
 mutant("c07-zip-source-first", ["C07"], [("src/internal.rs", "impl<'a, T, N: ArrayLength> IntrusiveArrayBuilder<'a, T, N> {", "impl<'a, T, N: ArrayLength> IntrusiveArrayBuilder<'a, T, N> {\n    // zip order mutant"), ("src/internal.rs", "        destination.zip(source).for_each(|(dst, src)| {\n            dst.write(src);\n            *position += 1;\n        });\n    }\n\n    /// Returns true if the write position equals the array size\n    #[inline(always)]\n    pub const fn is_full(&self) -> bool {\n        self.position == N::USIZE\n    }\n\n    /// Creates a mutable iterator for writing to the array elements.\n    ///\n    /// You MUST increment the position value (given as a mutable reference) as you iterate\n    /// to mark how many elements have been created.\n    ///\n    /// ```\n    /// #[cfg(feature = \"internals\")]\n    /// # {\n    /// # use generic_array::{GenericArray, internals::IntrusiveArrayBuilder", "        source.zip(destination).for_each(|(src, dst)| {\n            dst.write(src);\n            *position += 1;\n        });\n    }\n\n    /// Returns true if the write position equals the array size\n    #[inline(always)]\n    pub const fn is_full(&self) -> bool {\n        self.position == N::USIZE\n    }\n\n    /// Creates a mutable iterator for writing to the array elements.\n    ///\n    /// You MUST increment the position value (given as a mutable reference) as you iterate\n    /// to mark how many elements have been created.\n    ///\n    /// ```\n    /// #[cfg(feature = \"internals\")]\n    /// # {\n    /// # use generic_array::{GenericArray, internals::IntrusiveArrayBuilder")], "C07.Z")
 mutant("c07-poll-when-not-full", ["C07"], [("src/lib.rs", "if !builder.is_full() || iter.next().is_some() {", "if iter.next().is_some() || !builder.is_full() {")], "C07.P")
 mutant("c07-boxed-no-take", ["C07"], [("src/impl_alloc.rs", "v.extend((&mut iter).take(N::USIZE));", "v.extend((&mut iter).take(N::USIZE + 1));")], "C07.Z")
-mutant("c07-boxed-ok-without-len", ["C07"], [("src/impl_alloc.rs", "if v.len() != N::USIZE || iter.next().is_some() {\n            return Err(LengthError);\n        }\n\n        Ok(GenericArray::try_from_vec(v).unwrap())", "if v.len() < N::USIZE || iter.next().is_some() {\n            return Err(LengthError);\n        }\n\n        Ok(GenericArray::try_from_vec(v).unwrap())")], "C07.")
+benign("c07-boxed-len-lt-is-len-ne-after-take", ["C07", "C15"], [("src/impl_alloc.rs", "if v.len() != N::USIZE || iter.next().is_some() {\n            return Err(LengthError);\n        }\n\n        Ok(GenericArray::try_from_vec(v).unwrap())", "if v.len() < N::USIZE || iter.next().is_some() {\n            return Err(LengthError);\n        }\n\n        Ok(GenericArray::try_from_vec(v).unwrap())")])  # an equivalent "mutant": take(N) caps the Vec at N items, so `< N` is `!= N` (was listed as a mutant until the Vec length model saw that)
 mutant("c07-is-full-ge", ["C07"], [("src/internal.rs", "pub struct IntrusiveArrayBuilder<'a, T, N: ArrayLength> {", "// is_full mutant\npub struct IntrusiveArrayBuilder<'a, T, N: ArrayLength> {"), ("src/internal.rs", "    pub const fn is_full(&self) -> bool {\n        self.position == N::USIZE\n    }\n\n    /// Creates a mutable iterator for writing to the array elements.\n    ///\n    /// You MUST increment the position value (given as a mutable reference) as you iterate\n    /// to mark how many elements have been created.\n    ///\n    /// ```\n    /// #[cfg(feature = \"internals\")]\n    /// # {\n    /// # use generic_array::{GenericArray, internals::IntrusiveArrayBuilder", "    pub const fn is_full(&self) -> bool {\n        self.position + 1 >= N::USIZE\n    }\n\n    /// Creates a mutable iterator for writing to the array elements.\n    ///\n    /// You MUST increment the position value (given as a mutable reference) as you iterate\n    /// to mark how many elements have been created.\n    ///\n    /// ```\n    /// #[cfg(feature = \"internals\")]\n    /// # {\n    /// # use generic_array::{GenericArray, internals::IntrusiveArrayBuilder")], "")
 mutant("c07-from-iter-swallow", ["C07"], [("src/lib.rs", "            Err(_) => from_iter_length_fail(N::USIZE),\n        }\n    }\n}\n\n#[inline(never)]", "            Err(_) => from_iter_length_fail(N::USIZE + 1),\n        }\n    }\n}\n\n#[inline(never)]")], "C07.F")
 benign("c07-prechecks-if", ["C07"], [("src/lib.rs", "        match iter.size_hint() {\n            // if the lower bound is greater than N, array will overflow\n            (n, _) if n > N::USIZE => return Err(LengthError),\n            // if the upper bound is smaller than N, array cannot be filled\n            (_, Some(n)) if n < N::USIZE => return Err(LengthError),\n            _ => {}\n        }\n\n        unsafe {", "        let (lo, hi) = iter.size_hint();\n        if lo > N::USIZE {\n            return Err(LengthError);\n        }\n        if let Some(h) = hi {\n            if h < N::USIZE {\n                return Err(LengthError);\n            }\n        }\n\n        unsafe {")])
@@ -293,7 +293,7 @@ _REL.update({"R01": ["C01", "C02", "C10", "C12", "C18"], "R12": ["C02", "C09", "
              "R10": ["C02", "C10", "C12", "C18"], "R11": ["C01", "C03", "C11", "C18"], "R13": ["C02", "C13"], "R14": ["C14"],
              "R15": ["C03", "C04", "C07", "C15", "C16"], "R17": ["C03", "C04", "C12", "C17"]})
 # NOT registered (reported by the checks although behaviour-preserving - known limits, DESIGN 8.5):
-_SKIP = {("R07", 3), ("R14", 3), ("R16", 3), ("R17", 3)}
+_SKIP = {("R14", 3), ("R16", 3), ("R17", 3)}
 for _g, _props in _REL.items():
     for _i in (1, 2, 3):
         if (_g, _i) in _SKIP:
@@ -318,7 +318,7 @@ for _g, _props in _RELQ.items():
 # third corpus (P<prop>.p<i>: the ten properties the second corpus did not cover, written after seed rounds 4-5)
 _RELP = {"P02": ["C02", "C12", "C13", "C18"], "P08": ["C03", "C04", "C07", "C08", "C15"], "P10": ["C01", "C02", "C10", "C12", "C18"], "P11": ["C01", "C03", "C11", "C18"],
          "P13": ["C02", "C13"], "P15": ["C03", "C04", "C07", "C15", "C16"], "P17": ["C03", "C04", "C12", "C17"], "P19": ["C19", "C18"]}
-_SKIPP = {("P17", 3)}
+_SKIPP = set()
 for _g, _props in _RELP.items():
     for _i in (1, 2, 3):
         if (_g, _i) in _SKIPP:
@@ -462,3 +462,12 @@ mutant_on_patch("m-T01p3-even-node-carries-an-element", "T01.p3", ["C01"], [("sr
 mutant_on_patch("m-T07p3-surplus-probed-before-fullness", "T07.p3", ["C07"], [("src/lib.rs", "    if !builder.is_full() {\n        return Err(LengthError);\n    }\n\n    // every slot is taken, whatever the source yields now is one item too many\n    let surplus = iter.next();\n", "    let surplus = iter.next();\n    if !builder.is_full() {\n        return Err(LengthError);\n    }\n")], "C07.P")
 mutant_on_patch("m-T07p2-vec-length-test-inverted", "T07.p2", ["C07"], [("src/impl_alloc.rs", "if v.len() < N::USIZE || iter.next().is_some() {", "if v.len() > N::USIZE || iter.next().is_some() {")], "C07.O")
 mutant_on_patch("m-T07p1-hint-test-inverted", "T07.p1", ["C07"], [("src/lib.rs", "if lower > N::USIZE || upper.is_some_and(|upper| upper < N::USIZE) {", "if lower > N::USIZE || upper.is_some_and(|upper| upper > N::USIZE) {")], "C07.H")
+
+# release-profile twins (config F1N, debug assertions off): a guard that exists only in debug builds guards nothing
+mutant("c02-from-mut-slice-guard-only-in-debug", ["C02"], [("src/lib.rs", "        assert!(\n            slice.len() == N::USIZE,\n            \"slice.len() != N in GenericArray::from_mut_slice\"", "        debug_assert!(\n            slice.len() == N::USIZE,\n            \"slice.len() != N in GenericArray::from_mut_slice\"")], "C02.G")
+mutant("c09-remove-bounds-check-only-in-debug", ["C09"], [("src/sequence.rs", "    fn remove(self, idx: usize) -> (T, Self::Output) {\n        assert!(", "    fn remove(self, idx: usize) -> (T, Self::Output) {\n        debug_assert!(")], "C09.")
+mutant("c10-zero-length-guard-only-in-debug", ["C10"], [("src/lib.rs", "            assert!(slice.is_empty(), \"GenericArray length N must be non-zero\");\n            return (&[], &[]);", "            debug_assert!(slice.is_empty(), \"GenericArray length N must be non-zero\");\n            return (&[], &[]);")], "C10.")
+benign("c03-debug-assert-is-full-removed", ["C03", "C04", "C18"], [("src/internal.rs", "    pub const unsafe fn assume_init(self) -> GenericArray<T, N> {\n        debug_assert!(self.is_full());\n", "    pub const unsafe fn assume_init(self) -> GenericArray<T, N> {\n")])
+
+mutant_on_patch("m-P17p3-slot-next-to-the-cursor", "P17.p3", ["C17", "C04"], [("src/impl_serde.rs", "while let Some(slot) = slots.get_mut(*position) {", "while let Some(slot) = slots.get_mut(*position ^ 1) {")], "")
+mutant_on_patch("m-P17p3-counted-before-read", "P17.p3", ["C17", "C04"], [("src/impl_serde.rs", "        match seq.next_element()? {\n            Some(el) => {\n                slot.write(el);\n                *position += 1;\n            }", "        *position += 1;\n        match seq.next_element()? {\n            Some(el) => {\n                slot.write(el);\n            }")], "")
